@@ -13,7 +13,8 @@ type Known struct {
 	Property string
 	Text     string
 	ID       string
-	Sig      string
+	Sig      string   // first signature
+	Sigs     []string // all signatures (an entry may list several sig= fields: one root cause, several clauses)
 	Witness  string
 	Commit   string
 }
@@ -71,7 +72,10 @@ func LoadKnown(root string) []Known {
 			case strings.HasPrefix(f, "id="):
 				k.ID = f[3:]
 			case strings.HasPrefix(f, "sig="):
-				k.Sig = f[4:]
+				if k.Sig == "" {
+					k.Sig = f[4:]
+				}
+				k.Sigs = append(k.Sigs, f[4:])
 			case strings.HasPrefix(f, "witness="):
 				k.Witness = f[8:]
 			}
